@@ -62,7 +62,33 @@ func c08RandomSpec(c *core.Ctx, pattern string, dns bool) *gen.Spec {
 func c08Vary(c *core.Ctx, x *gen.Spec, dns bool) (y *gen.Spec, aspect string) {
 	for try := 0; try < 20; try++ {
 		y = x.Clone()
-		switch c.Rng.Intn(13) {
+		switch c.Rng.Intn(14) {
+		case 13:
+			// The negated form of a flag modifier is another value of it:
+			// $match-case, $~match-case and no modifier at all are three
+			// different rules.
+			var rest []string
+			for _, e := range x.Extra {
+				if e != "~match-case" {
+					rest = append(rest, e)
+				}
+			}
+			switch {
+			case x.MatchCase:
+				y.MatchCase = false
+				if c.Rng.Intn(3) > 0 {
+					y.Extra = append(append([]string(nil), x.Extra...), "~match-case")
+				}
+			case len(rest) != len(x.Extra):
+				// (x itself carries the negated form)
+				y.Extra = rest
+				y.MatchCase = c.Rng.Intn(2) == 0
+			case c.Rng.Intn(2) == 0:
+				y.MatchCase = true
+			default:
+				y.Extra = append(append([]string(nil), x.Extra...), "~match-case")
+			}
+			aspect = "match-case"
 		case 12:
 			// A modifier of the filter syntax that this version does not
 			// support (such a rule is rejected today, and the relation is
